@@ -54,6 +54,9 @@ def _ew(f, defined=None):
         out = k.pop("out", None)
         if out is None and a and isinstance(a[0], (A, EA, np.ndarray)):
             out = a[0]  # positional out argument of a ufunc
+            a = a[1:]
+        if a:
+            raise Unsupported("extra positional arguments of an elementwise function")
         if out is not None:
             # numpy writes the result into `out` and returns it: same here (a store into that array, logged as an effect)
             r = h(x, **k)
@@ -80,8 +83,9 @@ def _ew(f, defined=None):
 def _ew2(f):
     def h(x, y, *a, **k):
         k.pop("dtype", None)
-        if k.get("out") is not None:
-            raise Unsupported("out= argument")
+        if k.get("out") is not None or a:
+            # (a third positional argument of a binary ufunc is its `out` array)
+            raise Unsupported("out argument of a binary elementwise function")
         if isinstance(x, EA) or isinstance(y, EA):
             xa = x.a if isinstance(x, EA) else x
             ya = y.a if isinstance(y, EA) else y
@@ -410,6 +414,8 @@ def build_models(interp):
     reg(np.negative, _ew(lambda e: -e))
     reg(np.floor, _ew(sp.floor))
     def m_isfinite(x, *a, **k):
+        if a:
+            raise Unsupported("isfinite with a positional out argument")
         # reals are finite; values the harness declares as possibly NaN/inf (sym.MAYBE_NONFINITE) get an abstract truth value
         if isinstance(x, S) and x.e in sym.MAYBE_NONFINITE:
             return S(sp.Ne(sp.Function("isfinite")(x.e), 0))
@@ -427,6 +433,8 @@ def build_models(interp):
 
     def m_recip(x, *a, **k):
         k.pop("dtype", None)
+        if a:
+            raise Unsupported("reciprocal with a positional out argument")
         if isinstance(x, A):
             return 1 / x
         if isinstance(x, S):
@@ -444,6 +452,8 @@ def build_models(interp):
 
     def m_divide(x, y, *a, **k):
         k.pop("dtype", None)
+        if a:
+            raise Unsupported("divide with a positional out argument")
         if isinstance(x, A):
             return x / y
         if isinstance(y, A):
